@@ -1,11 +1,34 @@
 # C02 — Theta set operations return the exact set expression over the hash samples
 #
-# Mutations confirmed caught / harmless rewrites tolerated: see the list at the end of this comment block
-# (filled in after the mutation runs).
+# Genuine defects found and repaired (the model is the REPAIRED code; the old behaviour is refuted in coq/Regression_thetaset.v):
+#  * fixes/02_intersection_empty_order.patch — theta_intersection_base latched is_empty after two disjoint exact-mode inputs and
+#    then ignored every later input: result theta MAX instead of the minimum input theta, and dependence on the order of the
+#    inputs.  Signature: intersection_sticky_empty.
+#  * fixes/02_union_empty_theta.patch — get_result() of a union built with p < 1 that saw only empty inputs returned an EMPTY
+#    sketch with theta = starting theta < MAX (its serialized forms report MAX: results of later operations depended on the
+#    physical form).  Signature: union_empty_theta_below_max.
+#
+# Mutations of the C++ confirmed caught (scratch copies of the patched tree via VERIF_REPO; number of failing cases out of 100, seed 1):
+#   m2  union: early `break` also when the input is NOT ordered (DESIGN s.9 row C02)                      46 cases (union_missing/theta/extra)
+#   m3  intersection: theta = std::max instead of std::min (DESIGN row)                                   83 cases
+#   m4  A-not-B: sort-based path without the `< theta` filter (DESIGN row)                                53 cases (a_not_b_extra, a_not_b_not_below_theta)
+#   m5  lg_size_from_count: always the smaller size, the intersection table reaches rebuild (DESIGN row)  14 cases (intersection_missing/theta)
+#   m1b union: `union_theta_ = min(union_theta_, sketch.get_theta64())` dropped                           75 cases
+#   m6  union get_result: trims only above nominal_num + 1 (off by one)                                   8 cases (union_theta, union_extra)
+#   m7  union: theta of inputs without retained entries ignored (zero-retained p<1 inputs)                36 cases
+#   m8  intersection: "already no entries" early return taken before theta is lowered                     37 cases
+#   m10 jaccard: union sized by count_a only (trims in exact mode)                                        27 cases (jaccard_exact)
+#   m13 jaccard: identical_sets forgets B's count                                                         9 cases (jaccard_exact, exactly_equal)
+#   m14 A-not-B hash path: the scan of B stops early when A (not B) is ordered                            3 cases (a_not_b_extra)
+#   the library's own unit tests (theta_test) PASS with m6, m13 and m14 and fail with m2, m7, m8 (the others were not run).
+# DESIGN's first C02 mutation — dropping `union_theta_ = std::min(union_theta_, table_.theta_)` at the end of update — is an
+#   EQUIVALENT mutant: update's loop tests both thetas and get_result takes the min again, so no observation changes (0/100, as it should).
+# Harmless rewrites tolerated (0 failing cases): h1 A-not-B always takes the hash path (DESIGN row); h2 union table starts at full
+#   size lg_k+1 instead of starting_lg_size() (DESIGN row); h3 union get_result uses std::sort instead of std::nth_element.
 import itertools, struct
 
 PROP = "C02"
-READY = False
+READY = True
 COQ_PROPS = ['Properties_C02']
 RULE = ('per case 1..6 update_theta_sketch inputs (lg_k 5..10, p in {1, 0.5, 0.01, 2^-20}, resize factor X1..X8) filled from overlapping '
         'integer ranges sized 0 (empty), 1, 2, <k, ~k, 2k..4k (estimation mode) and p<1 with few updates (zero retained but not empty), some trimmed; '
@@ -42,7 +65,7 @@ ALL_FORMS = list(range(8))
 
 def gen(rng, tier):
     quick = (tier == 'quick')
-    ncases = 110 if quick else 1200
+    ncases = 100 if quick else 900
     cases = []
     for ci in range(ncases):
         ops = []; tags = set()
@@ -53,6 +76,8 @@ def gen(rng, tier):
         base = rng.choice([0, 1, 1000, rng.getrandbits(30)])
         span = rng.choice([uk // 2, uk, 2 * uk, 4 * uk])         # universe the ranges are drawn from
         sk = []                                                   # input registers
+        est = {}                                                  # rough number of retained entries per register
+        budget = 2600 if quick else 9000                         # hashed updates per case (the Murmur model costs ~0.2 ms each)
         nonempty = False
         for r in range(nin):
             lgk = rng.choice([5, 5, 6, 7, 8, 9, 10]) if not quick or rng.random() < 0.8 else rng.choice([5, 6])
@@ -67,7 +92,9 @@ def gen(rng, tier):
             elif kind < 0.55: count = rng.randrange(1, max(2, min(k, span)))
             elif kind < 0.75: count = rng.choice([uk - 1, uk, uk + 1, k - 1, k, k + 1])
             else: count = rng.choice([2 * k, 3 * k, 15 * k // 8 + 1, 4 * uk])
-            count = min(count, 4200 if quick else 9000)
+            count = max(0, min(count, budget)); budget -= count
+            pf = {P_ONE: 1.0, fbits(0.5): 0.5, fbits(0.01): 0.01}.get(pb, 0.0)
+            est[r] = min(count * pf, 15 * k / 8.0)
             start = base + rng.randrange(0, span + 1)
             if rng.random() < 0.15 and sk:
                 start = base                                       # nested / equal ranges
@@ -147,21 +174,30 @@ def gen(rng, tier):
         # ---- A-not-B ----
         pairs = [(a, b) for a in sk for b in sk]
         rng.shuffle(pairs)
+        ops.append([30, seed, sk[0], 1, sk[-1], 1, 1, 62])
         for (a, b) in pairs[:6 if quick else 12]:
-            fa = rng.choice(ALL_FORMS); fb = rng.choice(ALL_FORMS)
+            # the hash-based path re-hashes B's table on every insert past half load (resize by factor 1): cubic in the
+            # list-based model, so big B operands mostly go through the sort-based path
+            big = est[b] > (200 if quick else 500)
+            fa = rng.choice(ORDERED_FORMS if big else ALL_FORMS); fb = rng.choice(ORDERED_FORMS if big else ALL_FORMS)
             ops.append([30, seed, a, fa, b, fb, rng.randrange(2)])
-            # the same pair through the other path (sort-based: both ordered forms; hash-based: any other combination)
+            # the same pair through both paths (sort-based: both ordered forms; hash-based: any other combination)
             ops.append([30, seed, a, rng.choice(ORDERED_FORMS), b, rng.choice(ORDERED_FORMS), rng.randrange(2), 62])
-            ops.append([30, seed, a, rng.choice(UNORDERED_FORMS), b, rng.choice(ALL_FORMS), 1])
+            if not big:
+                ops.append([30, seed, a, rng.choice(UNORDERED_FORMS), b, rng.choice(ALL_FORMS), 1])
         ops.append([30, seed, sk[0], 0, alien, 1, 1]); ops.append([30, seed, alien, 1, sk[0], 0, 1])
         ops.append([30, seed, 60, rng.choice(ALL_FORMS), 61, rng.choice(ALL_FORMS), 1])
         ops.append([30, seed, 61, rng.choice(ALL_FORMS), 60, rng.choice(ALL_FORMS), 0])
         # ---- Jaccard, exactly_equal, ratio bounds ----
-        for (a, b) in pairs[:4] + [(sk[0], sk[0])]:
+        # (the union inside jaccard is sized by the two counts: big operands are expensive in the list-based model)
+        jlimit = 700 if quick else 2500
+        small = sorted(sk, key=lambda r: est[r])[0]
+        jpairs = [(a, b) for (a, b) in pairs if est[a] + est[b] <= jlimit or rng.random() < 0.08][:4]
+        for (a, b) in jpairs + [(small, small)]:
             fa = rng.choice(ALL_FORMS); fb = rng.choice(ALL_FORMS)
             ops.append([40, seed, a, fa, b, fb]); ops.append([41, seed, a, fa, b, fb])
         ops.append([40, seed, sk[0], 0, sk[0], 0]); ops.append([41, seed, sk[0], 0, sk[0], 0])      # same object
-        ops.append([40, seed, sk[0], 1, sk[0], 3]); ops.append([41, seed, sk[0], 2, sk[0], 4])      # equal sets, different objects
+        ops.append([40, seed, small, 1, small, 3]); ops.append([41, seed, small, 2, small, 4])      # equal sets, different objects
         ops.append([40, seed, sk[0], 0, alien, 0]); ops.append([41, seed, alien, 0, sk[0], 0])
         ops.append([42, 60, rng.choice(ALL_FORMS), 61, rng.choice(ALL_FORMS)])                      # intersection over union
         ops.append([42, 61, 0, 60, 0])                                                              # wrong way round: refused or not
@@ -170,7 +206,38 @@ def gen(rng, tier):
         if any(op[0] == 8 and op[3] > uk for op in ops): tags.add('union-trims')
         cases.append(dict(id='ts%d' % ci, ops=ops, tags=sorted(tags), cost=sum((op[3] if op[0] == 8 else 30) for op in ops)))
     cases.sort(key=lambda c: -c['cost'])
-    return cases
+    return [directed_case()] + cases
+
+def directed_case():
+    """Fixed scenarios at the case splits of the proofs (independent of the seed): two disjoint exact-mode sketches and an
+       estimation-mode / zero-retained one intersected in two orders (the intersection_sticky_empty defect), all-empty
+       and zero-retained inputs for every operation, union at exactly k and k+1 surviving keys."""
+    S = 9001; ops = []
+    ops.append([1, 0, 5, 0, P_ONE, S]); ops.append([8, 0, 1, 6])                     # A: 6 items, exact
+    ops.append([1, 1, 5, 0, P_ONE, S]); ops.append([8, 1, 100, 22])                  # B: 22 other items, exact
+    ops.append([1, 2, 5, 0, P_ONE, S]); ops.append([8, 2, 1000, 100])               # C: estimation mode
+    ops.append([1, 3, 10, 0, fbits(2.0 ** -20), S]); ops.append([8, 3, 5000, 40])   # Z: p<1, nothing retained, not empty
+    ops.append([1, 4, 5, 0, P_ONE, S])                                               # E: empty
+    ops.append([1, 5, 6, 0, P_ONE, S]); ops.append([8, 5, 1, 33])                    # F: 33 items (k+1 for lg_k 5)
+    ops.append([1, 6, 6, 0, P_ONE, S]); ops.append([8, 6, 1, 32])                    # G: 32 items (k)
+    x = 200
+    for order in ([0, 1, 2], [2, 0, 1], [0, 1, 3], [3, 1, 0], [0, 1, 4], [4, 0], [0, 2, 1], [3, 3], [3, 4], [0, 0, 0]):
+        x += 1; ops.append([20, x, S])
+        for r in order:
+            ops.append([21, x, r, (r + x) % 8]); ops.append([23, x])
+        ops.append([22, x, 1]); ops.append([22, x, 0])
+    u = 100
+    for lgk, pb, order in ((5, P_ONE, [5]), (5, P_ONE, [6]), (5, P_ONE, [6, 0]), (5, P_ONE, [4, 4]), (5, fbits(0.5), [4]), (5, fbits(0.5), [3]),
+                           (5, P_ONE, [3, 4]), (5, P_ONE, [2, 3]), (5, P_ONE, [3, 2]), (6, fbits(0.5), [5, 2, 3]), (5, P_ONE, [1, 2, 0, 3, 4])):
+        u += 1; ops.append([10, u, lgk, 0, pb, S])
+        for r in order:
+            ops.append([11, u, r, (r + u) % 8]); ops.append([12, u, r % 2])
+        ops.append([12, u, 1, 60]); ops.append([12, u, 0])
+    for a in (0, 3, 4, 2):
+        for b in (1, 3, 4, 2, 0):
+            ops.append([30, S, a, 1, b, 1, 1]); ops.append([30, S, a, 0, b, 3, 0])
+            ops.append([40, S, a, 2, b, 5]); ops.append([41, S, a, 2, b, 5])
+    return dict(id='ts_directed', ops=ops, tags=['setops', 'directed'], cost=0)
 
 def oracle(case, irecs, mrecs):
     """Property predicates on the implementation's outputs (R/F) against the specification values (S lines of the Coq model:
@@ -183,6 +250,16 @@ def oracle(case, irecs, mrecs):
         got = R[4:]
         sth, sempty, sn = spec[0], spec[1], spec[2]
         skeys = spec[3:3 + sn]
+        if name == 'intersection' and theta == MAX_THETA and empty == 1 and sempty == 0 and sth < MAX_THETA:
+            # one specific defect: an exact-mode intersection that became empty ignores every later input
+            fail('intersection_sticky_empty', 'intersection: after two disjoint exact-mode inputs every later input is ignored: result is '
+                 'empty with theta MAX although the minimum input theta is %x (feeding the same inputs in another order gives theta %x, not empty)' % (sth, sth), i)
+            return
+        if name == 'union' and empty == 1 and sempty == 1 and theta != MAX_THETA and sth == MAX_THETA:
+            # second specific defect: the empty result of a union built with p < 1 carries the starting theta
+            fail('union_empty_theta_below_max', 'union: get_result() of a union that saw only empty inputs is empty but reports theta %x '
+                 '(the starting theta of the p < 1 union), not MAX_THETA; its serialized forms report MAX_THETA' % theta, i)
+            return
         if theta != sth:
             fail(name + '_theta', '%s: result theta %x, the set expression gives %x' % (name, theta, sth), i)
         if empty != sempty:
@@ -267,4 +344,34 @@ def oracle(case, irecs, mrecs):
 
 FAMILIES = [dict(name='thetaset', harness='drv_thetaset.cpp', extract='Extract_thetaset.v', model='model_thetaset', gen=gen, oracle=oracle)]
 
-MANIFEST = dict(level_text='(to be filled in)', level_note='(to be filled in)', design_ref='DESIGN.md section 5 C02')
+MANIFEST = dict(
+    level_text=('Theorems (coq/Properties_C02.v, 27, axiom-free) about the executable model coq/ThetaSetDefs.v of theta_union_base, '
+                'theta_intersection_base (both with the repairs fixes/02_union_empty_theta.patch, fixes/02_intersection_empty_order.patch), theta_set_difference_base, jaccard_similarity_base and '
+                'bounds_on_ratios_in_theta_sketched_sets over the Theta hash table of C01 — polymorphic in the payload type and the combine policy '
+                '(shared with Tuple sketches), for ANY std::nth_element meeting its postcondition, ANY hash values, ALL sequences of well-formed input '
+                'sketches (distinct non-zero keys below theta; ordered => sorted; empty => no entries, theta MAX), all nominal sizes lg_k >= 5, resize '
+                'factors and starting thetas: UNION after any sequence of inputs (hence every prefix of a reused object) returns theta = min(theta0, '
+                'thetas of the non-empty inputs) lowered to the (k+1)-th smallest key of the union below it when more than k survive, exactly the keys '
+                'of the union below that theta (the k smallest when trimmed), empty (with theta MAX) iff all inputs were, sorted when asked; same result for any '
+                'permutation of the inputs and any presentation (ordered flag, entry order, physical form) of the same samples; reset restores the '
+                'initial state; seed mismatch refused. INTERSECTION: the table sized by lg_size_from_count never reaches resize/rebuild (nothing dropped); '
+                'theta = min (MAX if some input is empty), keys = the common keys, empty iff some input empty or (no keys and theta MAX), has_result iff '
+                'an update was made, permutation-independent. A-NOT-B: theta = min, keys = A\\B below theta with A\'s payloads and order flag, the two '
+                'early returns are compact copies of A, std::set_difference path = hash path (equal lists). JACCARD in exact mode: all three values are '
+                'the one quotient |A n B|/|A u B| of two naturals (the internal union is never trimmed), exactly_equal iff equal key sets, ratio bounds '
+                'in the f == 1 branch all equal count_b/count_a. Sketches reachable through the update-sketch API (C01 histories) and all their compact '
+                'forms are well formed and the same sample. The union proof reuses the C01 refinement (each accepted entry is one table update). '
+                'The model is tied to the C++ on every run: inputs are built from update sketches (items hashed by the Murmur model) and presented in 8 '
+                'physical forms (update sketch, compact ordered/unordered, wrapped v3 bytes ordered/unordered, wrapped compressed v4 bytes, deserialized '
+                'v3/v4), fed in all orders (<= 4 inputs) into unions of lg_k 5..8 vs inputs up to lg_k 10, with get_result between updates, reset, results '
+                'fed back as inputs, zero-retained p<1 inputs, empty inputs and a foreign-seed sketch; theta64, is_empty, is_ordered, num_retained and the '
+                'sorted entries of every result, has_result, and the Jaccard / ratio doubles (bit patterns, when no libm is involved) are compared exactly '
+                'with the model, and the property predicates are evaluated on the implementation outputs against the Coq set-algebra specifications.'),
+    level_note=('Trusted: Coq kernel; hand-written model validated only by the correspondence runs; Murmur3.v/Canon.v validated by the same runs; '
+                'nth_element by postcondition; byte-level serialization is C09/C10 (here each form is only stated to present the same fields, which the '
+                'runs check through queries of every form); theorems are at key level (payload results of the policy are C13); intersection theorems '
+                'assume input thetas <= MAX_THETA (a closed counterexample shows it is needed); Jaccard outside exact mode and the approximate binomial '
+                'bounds (libm) are only checked for lb <= estimate <= ub; get_result/has_result are pure observations in the model (const in C++). '
+                'Requires fixes/02_intersection_empty_order.patch and fixes/02_union_empty_theta.patch in /repo: without them the check reports the two defects '
+                '(signatures intersection_sticky_empty, union_empty_theta_below_max).'),
+    design_ref='DESIGN.md section 5 C02')
